@@ -685,6 +685,12 @@ pub fn encode_with_fixed_block_size<T: Source>(
     }
 
     let (_, context) = framebuf_and_context;
+    // The final frame may be shorter than `block_size`, but it must not lower
+    // `min_block_size` (RFC 9639 section 8.2 excludes the last block).
+    stream
+        .stream_info_mut()
+        .set_block_sizes(block_size, block_size)
+        .unwrap();
     stream
         .stream_info_mut()
         .set_md5_digest(&context.md5_digest());
